@@ -478,5 +478,5 @@ func c10Canvas(fset *token.FileSet, o *c10Out, path string) error {
 	}
 	o.p("end Canvas")
 	o.p("")
-	return nil
+	return c10Sync(fset, o, file)
 }
